@@ -276,6 +276,8 @@ pub struct LayoutOpts {
     pub drop_final_newline: bool,
     /// blank space on the header line may vary too
     pub header_spacing: bool,
+    /// force the final newline to be present / absent (None: by choice if `drop_final_newline`)
+    pub final_newline: Option<bool>,
 }
 
 impl LayoutOpts {
@@ -288,6 +290,7 @@ impl LayoutOpts {
         reradix: false,
         drop_final_newline: false,
         header_spacing: false,
+        final_newline: None,
     };
     pub const ALL: LayoutOpts = LayoutOpts {
         lead_blank: true,
@@ -298,6 +301,7 @@ impl LayoutOpts {
         reradix: true,
         drop_final_newline: true,
         header_spacing: true,
+        final_newline: None,
     };
     /// everything C20's statement lists (all after the header line)
     pub const AFTER_HEADER: LayoutOpts = LayoutOpts {
@@ -309,6 +313,7 @@ impl LayoutOpts {
         reradix: true,
         drop_final_newline: false,
         header_spacing: false,
+        final_newline: None,
     };
 }
 
@@ -495,7 +500,12 @@ pub fn render(lines: &[Line], ch: &mut Ch, opts: LayoutOpts) -> Rendered {
             text.push_str(" \t");
         }
         let last = li + 1 == lines.len();
-        if last && lines.len() > 1 && opts.drop_final_newline && ch.chance(1, 3) {
+        let drop_nl = last
+            && match opts.final_newline {
+                Some(keep) => !keep,
+                None => lines.len() > 1 && opts.drop_final_newline && ch.chance(1, 3),
+            };
+        if drop_nl {
             st.final_newline = false;
         } else {
             text.push_str(eol);
